@@ -414,3 +414,7 @@ theorem ema_over_superSmoother_bibo (N1 N2 : Nat) (h1 : 0 < N1) (h2 : 0 < N2) (B
   intro x hxm
   exact hx x (hp.subset hxm)
 end SF.C09.Real
+
+/-! non-vacuity of `roofing_fading` / `superSmoother_fading_outputs`: equal-length heads, N ≤ |p1|, a tail of k + 2 values -/
+example : ([1, 2, 3] : List ℝ).length = ([4, 5, 6] : List ℝ).length ∧ 3 ≤ ([1, 2, 3] : List ℝ).length
+    ∧ ([0, 0, 0, 0, 0] : List ℝ).length = 3 + 2 := by simp
